@@ -15,15 +15,29 @@ def gen(run, name, nodes, clients, msgs, ids, depth, simulate=None, qos=(0, 1, 2
                                simulate=simulate, depth=(depth * 6) if simulate else None)
 
 
-def scenario(h, nodes, dupall=False, dynamic=False, empty=False):
+def _names(shape):
+    """Topic and filter of message m.  shape 0: t/<m>, subscribed exactly.  Other shapes use names that are legal and unusual - levels
+    that start with '$' below the first level (only a FIRST level starting with '$' is special in MQTT, and every stored name starts with
+    the mount point) - reached through a wildcard that covers exactly that topic."""
+    if shape == 1:
+        return (lambda m: ["t", m, "$s"]), (lambda m: ["t", m, "+"])
+    if shape == 2:
+        return (lambda m: ["t", "$" + m, "v"]), (lambda m: ["t", "$" + m, "#"])
+    if shape == 3:
+        return (lambda m: ["t", m, "$s", "z"]), (lambda m: ["t", m, "#"])
+    return (lambda m: ["t", m]), (lambda m: ["t", m])
+
+
+def scenario(h, nodes, dupall=False, dynamic=False, empty=False, shape=0):
     """dynamic: the subscriptions are made AFTER every topic has been published once from every publishing node (so that whatever
     a node remembers about a topic stems from a time without subscribers), and at the end one remote subscriber unsubscribes
     and the topic is published once more: destinations follow what the publishing node knows NOW."""
     ops = []
     subs = []
+    T, F = _names(shape)
     # one subscriber session per node, subscribed to the topics that node hosts
     for n in nodes:
-        fs = [{"f": ["t", m], "q": 1} for m in sorted(HOSTS) if n in HOSTS[m]]
+        fs = [{"f": F(m), "q": 1} for m in sorted(HOSTS) if n in HOSTS[m]]
         subs.append({"op": "connect", "c": 10 + n, "n": n, "client": "sub%d" % n, "ka": 600})
         if fs:
             subs.append({"op": "sub", "c": 10 + n, "id": 1, "fs": fs})
@@ -35,7 +49,7 @@ def scenario(h, nodes, dupall=False, dynamic=False, empty=False):
         ops += pubs
         for c in pubconns:
             for m in sorted(HOSTS):
-                ops.append({"op": "pub", "c": PUBCONN[c], "t": ["t", m], "p": "warm-%s-%s" % (c, m), "q": 0, "id": 0})
+                ops.append({"op": "pub", "c": PUBCONN[c], "t": T(m), "p": "warm-%s-%s" % (c, m), "q": 0, "id": 0})
         ops += subs
     else:
         ops += subs + pubs
@@ -47,7 +61,7 @@ def scenario(h, nodes, dupall=False, dynamic=False, empty=False):
             # believes it is retransmitting): the flag must not change whether the message is stored before it is acknowledged
             dup = o["q"] == 1 and (o["c"], o["id"]) in used and (dupall or len(h) % 2 == 0)
             used.add((o["c"], o["id"]))
-            ops.append({"op": "pub", "c": PUBCONN[o["c"]], "t": ["t", o["m"]], "p": o["m"], "q": o["q"], "id": o["id"] if o["q"] > 0 else 0, "dup": dup})
+            ops.append({"op": "pub", "c": PUBCONN[o["c"]], "t": T(o["m"]), "p": o["m"], "q": o["q"], "id": o["id"] if o["q"] > 0 else 0, "dup": dup})
         elif o["op"] == "pubrel":
             ops.append({"op": "send", "c": PUBCONN[o["c"]], "kind": "PUBREL", "id": o["id"]})
         elif o["op"] == "sweep":
@@ -69,10 +83,10 @@ def scenario(h, nodes, dupall=False, dynamic=False, empty=False):
     if dynamic and pubconns and not down:
         # node 2's subscriber leaves topic m2 (hosted on node 2 only); a publish from node 1 afterwards has no destination
         if 2 in nodes and "c1" in pubconns:
-            ops.append({"op": "unsub", "c": 12, "id": 7, "fs": [{"f": ["t", "m2"], "q": 0}]})
-            ops.append({"op": "pub", "c": PUBCONN["c1"], "t": ["t", "m2"], "p": "after-unsub", "q": 1, "id": 9})
+            ops.append({"op": "unsub", "c": 12, "id": 7, "fs": [{"f": F("m2"), "q": 0}]})
+            ops.append({"op": "pub", "c": PUBCONN["c1"], "t": T("m2"), "p": "after-unsub", "q": 1, "id": 9})
     if empty and "c1" in pubconns and not down:
         # a publish with an empty payload (legal: a bare event) is distributed like any other
-        ops.append({"op": "pub", "c": PUBCONN["c1"], "t": ["t", "m5" if 3 in nodes else "m2"], "p": "", "q": 0, "id": 0})
+        ops.append({"op": "pub", "c": PUBCONN["c1"], "t": T("m5" if 3 in nodes else "m2"), "p": "", "q": 0, "id": 0})
     ops.append({"op": "quiesce"})
     return {"nodes": nodes, "ops": ops}
